@@ -1,55 +1,35 @@
-"""Segmented symbolic byte strings.
+"""Symbolic byte strings with concrete length.
 
-A string is a concatenation of parts; a part is either a python str whose characters are
-bytes (latin-1 view of the UTF-8 encoding) or a symbolic z3 String term, optionally of known
-length. Used for both `str`/`String` and `[u8]`/`Vec<u8>`.
+A string is a tuple of bytes; each byte is a python int or a z3 Int term (0..255). Used for both
+`str`/`String` and `[u8]`/`Vec<u8>`. Lengths are always concrete: sources of unknown length (a symbolic
+string of variable length, the decimal rendering of a symbolic integer) fork on the length when they
+are created, so that every comparison reduces to linear integer arithmetic over the bytes.
 """
 import z3
 
 
-class Sym:
-    __slots__ = ("e", "n")
-
-    def __init__(self, e, n=None):
-        self.e = e
-        self.n = n
-
-    def __repr__(self):
-        return "<%s:%s>" % (self.e, self.n)
-
-
-def _z3str(s):
-    # python str of byte-chars -> z3 string literal
-    return z3.StringVal(s)
+def _is_int(c):
+    return isinstance(c, int)
 
 
 class SStr:
-    __slots__ = ("parts", "_z")
+    __slots__ = ("chars", "_conc")
 
     def __init__(self, parts=()):
         out = []
         for p in parts:
             if isinstance(p, str):
-                if not p:
-                    continue
-                if out and isinstance(out[-1], str):
-                    out[-1] = out[-1] + p
-                else:
-                    out.append(p)
-            elif isinstance(p, Sym):
-                if p.n == 0:
-                    continue
-                out.append(p)
+                out.extend(ord(ch) for ch in p)
             elif isinstance(p, SStr):
-                for q in p.parts:
-                    if isinstance(q, str) and out and isinstance(out[-1], str):
-                        out[-1] = out[-1] + q
-                    else:
-                        out.append(q)
+                out.extend(p.chars)
+            elif isinstance(p, int) or isinstance(p, z3.ArithRef):
+                out.append(p)
+            elif isinstance(p, (list, tuple)):
+                out.extend(p)
             else:
                 raise TypeError(p)
-        self.parts = tuple(out)
-        self._z = None
+        self.chars = tuple(out)
+        self._conc = None
 
     # -------- constructors
     @staticmethod
@@ -61,188 +41,226 @@ class SStr:
         return SStr((t.encode("utf-8").decode("latin-1"),))
 
     @staticmethod
-    def sym(e, n=None):
-        return SStr((Sym(e, n),))
+    def of_chars(cs):
+        s = SStr()
+        s.chars = tuple(cs)
+        return s
 
     # -------- basic
     def is_concrete(self):
-        return all(isinstance(p, str) for p in self.parts)
+        if self._conc is None:
+            self._conc = all(type(c) is int for c in self.chars)
+        return self._conc
 
     def concrete(self):
         assert self.is_concrete()
-        return "".join(self.parts)
+        return "".join(map(chr, self.chars))
 
     def text(self):
-        return self.concrete().encode("latin-1").decode("utf-8", "replace")
-
-    def to_z3(self):
-        if self._z is None:
-            ts = [(_z3str(p) if isinstance(p, str) else p.e) for p in self.parts]
-            if not ts:
-                self._z = z3.StringVal("")
-            elif len(ts) == 1:
-                self._z = ts[0]
-            else:
-                self._z = z3.Concat(*ts)
-        return self._z
+        return bytes(self.chars).decode("utf-8", "replace")
 
     def known_len(self):
-        n = 0
-        for p in self.parts:
-            if isinstance(p, str):
-                n += len(p)
-            elif p.n is None:
-                return None
-            else:
-                n += p.n
-        return n
+        return len(self.chars)
 
     def length(self):
-        """python int or z3 Int"""
-        n = 0
-        sym = []
-        for p in self.parts:
-            if isinstance(p, str):
-                n += len(p)
-            elif p.n is None:
-                sym.append(z3.Length(p.e))
-            else:
-                n += p.n
-        if not sym:
-            return n
-        return z3.Sum([z3.IntVal(n)] + sym) if n else (sym[0] if len(sym) == 1 else z3.Sum(sym))
+        return len(self.chars)
+
+    def __len__(self):
+        return len(self.chars)
 
     def concat(self, other):
-        return SStr(self.parts + other.parts)
+        return SStr.of_chars(self.chars + other.chars)
 
     def same(self, other):
-        """syntactic identity"""
-        if len(self.parts) != len(other.parts):
+        if len(self.chars) != len(other.chars):
             return False
-        for a, b in zip(self.parts, other.parts):
-            if isinstance(a, str) != isinstance(b, str):
+        for a, b in zip(self.chars, other.chars):
+            ia = type(a) is int
+            if ia != (type(b) is int):
                 return False
-            if isinstance(a, str):
+            if ia:
                 if a != b:
                     return False
-            elif not a.e.eq(b.e):
+            elif not a.eq(b):
                 return False
         return True
 
     def eq(self, other):
         """python bool or z3 Bool"""
-        if self.is_concrete() and other.is_concrete():
-            return self.concrete() == other.concrete()
-        if self.same(other):
-            return True
-        la, lb = self.known_len(), other.known_len()
-        if la is not None and lb is not None and la != lb:
+        if len(self.chars) != len(other.chars):
             return False
-        # strip common concrete prefix / suffix
-        a, b = list(self.parts), list(other.parts)
-        while a and b and isinstance(a[0], str) and isinstance(b[0], str):
-            k = min(len(a[0]), len(b[0]))
-            if a[0][:k] != b[0][:k]:
-                return False
-            a[0], b[0] = a[0][k:], b[0][k:]
-            if not a[0]:
-                a.pop(0)
-            if not b[0]:
-                b.pop(0)
-        while a and b and isinstance(a[-1], str) and isinstance(b[-1], str):
-            k = min(len(a[-1]), len(b[-1]))
-            if a[-1][-k:] != b[-1][-k:]:
-                return False
-            a[-1], b[-1] = a[-1][:-k], b[-1][:-k]
-            if not a[-1]:
-                a.pop()
-            if not b[-1]:
-                b.pop()
-        while a and b and isinstance(a[0], Sym) and isinstance(b[0], Sym) and a[0].e.eq(b[0].e):
-            a.pop(0)
-            b.pop(0)
-        while a and b and isinstance(a[-1], Sym) and isinstance(b[-1], Sym) and a[-1].e.eq(b[-1].e):
-            a.pop()
-            b.pop()
-        if not a and not b:
+        conj = []
+        for a, b in zip(self.chars, other.chars):
+            ia, ib = type(a) is int, type(b) is int
+            if ia and ib:
+                if a != b:
+                    return False
+            elif not ia and not ib and a.eq(b):
+                continue
+            else:
+                conj.append(a == b)
+        if not conj:
             return True
-        return SStr(a).to_z3() == SStr(b).to_z3()
+        return conj[0] if len(conj) == 1 else z3.And(*conj)
 
-    def lt(self, other):
-        if self.is_concrete() and other.is_concrete():
-            return self.concrete() < other.concrete()
-        return self.to_z3() < other.to_z3()
+    def lt(self, other, or_equal=False):
+        """byte-wise lexicographic order"""
+        a, b = self.chars, other.chars
+        n = min(len(a), len(b))
+        # strip common concrete / identical prefix
+        i = 0
+        while i < n:
+            x, y = a[i], b[i]
+            if type(x) is int and type(y) is int:
+                if x != y:
+                    return x < y
+            elif not (type(x) is not int and type(y) is not int and x.eq(y)):
+                break
+            i += 1
+        if i == n:
+            if len(a) == len(b):
+                return or_equal
+            return len(a) < len(b)
+        # tail result when all compared positions are equal
+        if len(a) == len(b):
+            tail = or_equal
+        else:
+            tail = len(a) < len(b)
+        res = tail
+        for k in range(n - 1, i - 1, -1):
+            x, y = a[k], b[k]
+            if type(x) is int and type(y) is int:
+                if x != y:
+                    res = x < y
+                continue
+            if type(x) is not int and type(y) is not int and x.eq(y):
+                continue
+            if res is True:
+                res = x <= y
+            elif res is False:
+                res = x < y
+            else:
+                res = z3.Or(x < y, z3.And(x == y, res))
+        return res
 
     def le(self, other):
-        if self.is_concrete() and other.is_concrete():
-            return self.concrete() <= other.concrete()
-        return self.to_z3() <= other.to_z3()
+        return self.lt(other, True)
 
     def startswith(self, pre):
-        if pre.is_concrete():
-            p = pre.concrete()
-            if not p:
-                return True
-            if self.parts and isinstance(self.parts[0], str) and len(self.parts[0]) >= len(p):
-                return self.parts[0].startswith(p)
-            if self.is_concrete():
-                return self.concrete().startswith(p)
-        return z3.PrefixOf(pre.to_z3(), self.to_z3())
+        n = len(pre.chars)
+        if n > len(self.chars):
+            return False
+        return SStr.of_chars(self.chars[:n]).eq(pre)
 
     def endswith(self, suf):
-        if suf.is_concrete():
-            p = suf.concrete()
-            if not p:
-                return True
-            if self.parts and isinstance(self.parts[-1], str) and len(self.parts[-1]) >= len(p):
-                return self.parts[-1].endswith(p)
-            if self.is_concrete():
-                return self.concrete().endswith(p)
-        return z3.SuffixOf(suf.to_z3(), self.to_z3())
+        n = len(suf.chars)
+        if n > len(self.chars):
+            return False
+        return SStr.of_chars(self.chars[len(self.chars) - n:]).eq(suf)
 
     def slice(self, a, b):
-        """substring [a,b) with concrete bounds; requires known lengths up to b"""
-        out = []
-        pos = 0
-        for p in self.parts:
-            if pos >= b:
-                break
-            if isinstance(p, str):
-                ln = len(p)
-            else:
-                ln = p.n
-                if ln is None:
-                    # unknown-length part: only sliceable through z3
-                    return SStr.sym(z3.SubString(self.to_z3(), z3.IntVal(a), z3.IntVal(b - a)), b - a)
-            lo, hi = max(a, pos), min(b, pos + ln)
-            if lo < hi:
-                if isinstance(p, str):
-                    out.append(p[lo - pos:hi - pos])
-                elif lo == pos and hi == pos + ln:
-                    out.append(p)
-                else:
-                    out.append(Sym(z3.SubString(p.e, z3.IntVal(lo - pos), z3.IntVal(hi - lo)), hi - lo))
-            pos += ln
-        return SStr(out)
+        return SStr.of_chars(self.chars[a:b])
 
     def byte_at(self, i):
-        """python int or z3 Int (code of byte i); requires known lengths up to i"""
-        pos = 0
-        for p in self.parts:
-            ln = len(p) if isinstance(p, str) else p.n
-            if ln is None:
-                return z3.StrToCode(z3.SubString(self.to_z3(), z3.IntVal(i), z3.IntVal(1)))
-            if i < pos + ln:
-                if isinstance(p, str):
-                    return ord(p[i - pos])
-                if ln == 1:
-                    return z3.StrToCode(p.e)
-                return z3.StrToCode(z3.SubString(p.e, z3.IntVal(i - pos), z3.IntVal(1)))
-            pos += ln
-        raise IndexError(i)
+        return self.chars[i]
+
+    def sym_vars(self):
+        return [c for c in self.chars if type(c) is not int]
 
     def __repr__(self):
-        return "S" + repr(list(self.parts))
+        out = []
+        buf = []
+        for c in self.chars:
+            if type(c) is int:
+                buf.append(chr(c) if 32 <= c < 127 else "\\x%02x" % c)
+            else:
+                if buf:
+                    out.append("".join(buf))
+                    buf = []
+                out.append("<%s>" % c)
+        if buf:
+            out.append("".join(buf))
+        return "S(" + "".join(out) + ")"
 
 
 EMPTY = SStr(())
+
+
+class Sym:
+    """kept for source compatibility (no longer used)"""
+    def __init__(self, e, n=None):
+        raise TypeError("Sym parts are obsolete")
+
+
+# ---------------------------------------------------------------- character classes
+def cls_digit(c):
+    return 48 <= c <= 57
+
+
+def cls_hex(c):
+    return 48 <= c <= 57 or 97 <= c <= 102
+
+
+def cls_lower(c):
+    return 97 <= c <= 122
+
+
+def cls_alnum(c):
+    return 48 <= c <= 57 or 97 <= c <= 122
+
+
+def cls_word(c):
+    return 48 <= c <= 57 or 65 <= c <= 90 or 97 <= c <= 122 or c == 95
+
+
+def cls_printable(c):
+    return 32 <= c <= 126
+
+
+def cls_byte(c):
+    return 0 <= c <= 255
+
+
+def cls_json_escape(c):
+    return c == 34 or c == 92 or c < 32
+
+
+def z3_in_ranges(c, ranges):
+    alts = []
+    for lo, hi in ranges:
+        alts.append(c == lo if lo == hi else z3.And(c >= lo, c <= hi))
+    return alts[0] if len(alts) == 1 else z3.Or(*alts)
+
+
+CLASS_RANGES = {
+    "digit": [(48, 57)],
+    "hex": [(48, 57), (97, 102)],
+    "lower": [(97, 122)],
+    "alnum": [(48, 57), (97, 122)],
+    "word": [(48, 57), (65, 90), (95, 95), (97, 122)],
+    "printable": [(32, 126)],
+    "byte": [(0, 255)],
+    "json_escape": [(0, 31), (34, 34), (92, 92)],
+    # structural JSON characters, quote, backslash, a letter and the two bytes of U+00E9
+    "jsonish": [(34, 34), (44, 44), (58, 58), (91, 93), (97, 97), (123, 123), (125, 125), (0xC3, 0xC3), (0xA9, 0xA9)],
+}
+
+# class inclusion facts used to answer membership questions without a solver call
+SUBCLASS = {
+    ("digit", "hex"), ("digit", "alnum"), ("digit", "word"), ("digit", "printable"), ("digit", "byte"),
+    ("hex", "alnum"), ("hex", "word"), ("hex", "printable"), ("hex", "byte"),
+    ("lower", "alnum"), ("lower", "word"), ("lower", "printable"), ("lower", "byte"),
+    ("alnum", "word"), ("alnum", "printable"), ("alnum", "byte"), ("word", "printable"), ("word", "byte"),
+    ("printable", "byte"),
+}
+DISJOINT = {
+    ("digit", "lower"), ("lower", "digit"), ("digit", "json_escape"), ("hex", "json_escape"), ("lower", "json_escape"),
+    ("alnum", "json_escape"), ("word", "json_escape"),
+}
+
+
+def in_class_concrete(c, cls):
+    for lo, hi in CLASS_RANGES[cls]:
+        if lo <= c <= hi:
+            return True
+    return False
